@@ -369,6 +369,43 @@ func raceClient(c *Ctx) {
 		iters = 2000
 	}
 	var total int64
+	// first, on one goroutine: a transaction is in flight, Close; its handler is told "closed" and, to make sure, closes
+	// the client itself (from inside the outer Close, on the same goroutine). The inner call reports ErrClientClosed, the
+	// outer one finishes. A Close that takes 30 s (normally microseconds) is taken as one that never returns.
+	for _, withFallback := range []bool{false, true} {
+		total++
+		conn := &raceConn{in: make(chan []byte, 4), closed: make(chan struct{})}
+		opts := []stun.ClientOption{stun.WithClock(&raceClock{now: time.Unix(1700000000, 0)}), stun.WithCollector(&raceCollector{}), stun.WithNoRetransmit}
+		if withFallback {
+			opts = append(opts, stun.WithHandler(func(stun.Event) {}))
+		}
+		cl, err := stun.NewClient(conn, opts...)
+		if err != nil {
+			c.Fail("NewClient: %v", err)
+		}
+		var inner error
+		innerCalled := false
+		_ = cl.Start(stun.MustBuild(stun.BindingRequest, stun.NewTransactionIDSetter([12]byte{0xC1, 0x05})), func(e stun.Event) {
+			if e.Error != nil && !innerCalled {
+				innerCalled = true
+				inner = cl.Close()
+			}
+		})
+		done := make(chan error, 1)
+		go func() { done <- cl.Close() }()
+		select {
+		case outer := <-done:
+			if outer != nil || !innerCalled || !errors.Is(inner, stun.ErrClientClosed) {
+				c.Res.Violations = append(c.Res.Violations, raceViolation("close-from-its-own-handler", fmt.Sprintf("Close with a transaction in flight whose handler calls Close: outer Close = %v, handler called = %v, inner Close = %v (want nil, true, ErrClientClosed)", outer, innerCalled, inner)))
+				racePassFinish(c, total, "")
+				return
+			}
+		case <-time.After(30 * time.Second):
+			c.Res.Violations = append(c.Res.Violations, raceViolation("close-from-its-own-handler/never-returns", "Close with a transaction in flight whose handler (told that the client is closing) calls Close itself: the outer Close has not returned after 30 s"))
+			racePassFinish(c, total, "")
+			return
+		}
+	}
 	for it := 0; it < iters; it++ {
 		if c.Expired() {
 			break
